@@ -15,7 +15,7 @@ func init() {
 		Title: "A route function runs only for requests its declaration admits",
 		Decided: "C01.a the route whose function runs is the route SelectRoute returned, and it is the one filters and handler observe (one variable feeds Function, wrapRequestResponse, ExtractParameters, the chain's documentation fields and Request.selectedRoute); Route.Function is invoked nowhere else; " +
 			"C01.b admission pipeline: for both routers every non-nil route a selector returns is an element of a collection whose every element passed the path match, all If conditions, the method equality, the Content-Type test and the Accept test, each applied to this request (guard-set dataflow over the candidate collections, across helper functions); " +
-			"C01.c in the token matcher a failed content comparison of a request token (literal, regex, custom verb, literal suffix) cannot reach a positive answer; C01.d siblings agree on token forms: a transformation the parameter binder applies to a URL value is applied by the matcher under the same template guards, a literal affix the binder strips is verified by the matcher, and a regex the route matcher enforces is enforced by the root-path scorer as well; C01.e header tokens are trimmed after they are cut, before they are compared (router side). C01.f a capture group of a package-level pattern is used to test the request token only with the pattern's literal context restored (the ':' of a custom verb); C01.g no call passes same-typed arguments crosswise to the callee's parameter names.",
+			"C01.c in the token matcher a failed content comparison of a request token (literal, regex, custom verb, literal suffix) cannot reach a positive answer; C01.d siblings agree on token forms: a transformation the parameter binder applies to a URL value is applied by the matcher under the same template guards, a literal affix the binder strips is verified by the matcher, and a regex the route matcher enforces is enforced by the root-path scorer as well; C01.e header tokens are trimmed after they are cut, before they are compared (router side). C01.f a capture group of a package-level pattern is used to test the request token only with the pattern's literal context restored (the ':' of a custom verb); C01.g no call passes same-typed arguments crosswise to the callee's parameter names. C01.h inside the media-type matchers a positive answer has a reason in the declaration (equality with a declared element, nothing declared, no Content-Type sent, or - Accept only - a */* range of the request); C01.i the condition list of a route is not built on another object's backing array.",
 		NotDecided: "whether a particular token sequence matches a particular template (value-level: the regexes, tokenizePath, the custom-verb regex); anchoring of {v:regex} matching in the Curly router (the property text does not fix it).",
 		Rules: []Rule{
 			{ID: "C01.a", Template: "T-PROV", Required: true, Run: ruleC01a,
